@@ -23,6 +23,9 @@ var (
 
 type Evaluator struct {
 	ctx *ctx.EvalCtx
+
+	// usingLayout is true while the layout of a use statement is evaluated
+	usingLayout bool
 }
 
 func New(ctx *ctx.EvalCtx) *Evaluator {
@@ -197,7 +200,15 @@ func (e *Evaluator) evalUseStmt(node *ast.UseStmt, env *object.Env) object.Objec
 		return e.newError(node, fail.ErrUseStmtNotAllowed)
 	}
 
+	// the layout reaches the use statement again only through
+	// an insert block of the page that contains it
+	if e.usingLayout {
+		return e.newError(node, fail.ErrUseStmtInInsert)
+	}
+
+	e.usingLayout = true
 	layoutContent := e.Eval(node.Program, env)
+	e.usingLayout = false
 
 	if isError(layoutContent) {
 		return layoutContent
